@@ -314,11 +314,12 @@ class Reader:
             old_value.replace_by(value)
         self.scopes[-1].value_map[value.name] = value
 
-    def find_value(self, name, ty=ir.i32):
+    def find_value(self, name, ty=None):
         """Try hard to find a value.
 
         If the value is undefined, create a placeholder undefined
-        value.
+        value. The placeholder gets the type ty, if the type of the
+        value is known at the place where it is used.
         """
         for scope in reversed(self.scopes):
             if name in scope.value_map:
@@ -328,8 +329,10 @@ class Reader:
             if name in self.undefined_values:
                 value = self.undefined_values[name]
             else:
-                value = ir.Undefined(name, ty)
+                value = ir.Undefined(name, ir.ptr)
                 self.undefined_values[name] = value
+            if ty is not None:
+                value.ty = ty
         return value
 
     def _get_block(self, name):
@@ -357,8 +360,8 @@ class Reader:
                 # Go for binop
                 op = self.consume(self.peek)[1]
                 b = self.parse_id()
-                a = self.find_value(a)
-                b = self.find_value(b)
+                a = self.find_value(a, ty=ty)
+                b = self.find_value(b, ty=ty)
                 ins = ir.Binop(a, op, b, name, ty)
             elif a == "phi":
                 ins = ir.Phi(name, ty)
@@ -410,7 +413,7 @@ class Reader:
             ins = ir.AddressOf(src, name)
         elif self.peek in ir.Unop.ops:
             operation = self.consume(self.peek)[1]
-            a = self.parse_value_ref()
+            a = self.parse_value_ref(ty=ty)
             ins = ir.Unop(operation, a, name, ty)
         else:  # pragma: no cover
             raise NotImplementedError(self.peek)
@@ -437,7 +440,7 @@ class Reader:
             self.consume_keyword("volatile")
         return volatile
 
-    def parse_value_ref(self, ty=ir.ptr):
+    def parse_value_ref(self, ty=None):
         """Parse a reference to another variable."""
         return self.find_value(self.parse_id(), ty=ty)
 
